@@ -758,6 +758,15 @@ def make_resolver(vk_all, jix, vix=None):
                 if mm:
                     tail = "::%s::%s" % (mm.group(1), mm.group(2))
                     cands = [c for c in ix.candidates(mm.group(2)) if c[0].endswith(tail)]
+                    if len(cands) > 1:
+                        # `Type::method::{closure#n}`: several types have a method of that name; jiff keeps each
+                        # type in the module of the same (lower-case) name
+                        mo = re.search(r"(\w+)::\w+::\{closure#\d+\}$", closure)
+                        if mo:
+                            want = mo.group(1).lower()
+                            c2 = [c for c in cands if c[0].split("::<impl")[0].split("::")[-1] == want]
+                            if len(c2) == 1:
+                                cands = c2
                 else:
                     loc = closure.strip()
                     for last, lst in ix.by_last.items():
